@@ -198,7 +198,8 @@ out:
  *   q: PUT on a <maxSize>-byte PDU, token = tokLenOf(key) bytes 0xa0+key (tokLenOf(0) = 0, else key*3%8+1: distinct keys are
  *      distinct tokens), Uri-Path of <plen> bytes, Block1 (0,0,blk) unless blk = 7, coap_add_data_large_request();
  *   r: response (4-byte token) on a <maxSize>-byte PDU to a GET for resource key%2 carrying Block2 (0,0,blk) and Request-Tag
- *      (key/2)%3: absent / 0x71 / 0x72, query NULL, coap_add_data_large_response();
+ *      (key/2)%3: absent / 0x71 / 0x72, query NULL, the response carrying a Location-Path of <plen> bytes (0: none; room for
+ *      the 2-byte Content-Format the function inserts is required: nopdu otherwise), coap_add_data_large_response();
  *   af: allocation that fails during the call: 0 none, 1 the lg_xmit, 2 the application token copy (coap_new_binary), 3 the
  *      skeleton PDU copy.  The PDU is deleted after the call (the lg_xmit stays linked, as after coap_send()).
  * item `x` = every linked lg_xmit expires (coap_block_check_lg_xmit_timeouts far in the future).
@@ -286,7 +287,8 @@ static void do_adlx(int isReq, size_t maxSize, unsigned maxBlk, char *seq) {
       ok = req && p && coap_add_token(req, 4, tok) &&
            coap_add_option(req, COAP_OPTION_URI_PATH, 2, (const uint8_t *)(key % 2 ? "b1" : "b0")) &&
            coap_add_option(req, COAP_OPTION_BLOCK2, coap_encode_var_safe(buf, sizeof(buf), blk), buf) &&
-           ((key / 2) % 3 == 0 || coap_add_option(req, COAP_OPTION_RTAG, 1, &rt)) && coap_add_token(p, 4, tok);
+           ((key / 2) % 3 == 0 || coap_add_option(req, COAP_OPTION_RTAG, 1, &rt)) && coap_add_token(p, 4, tok) &&
+           (!plen || coap_add_option(p, COAP_OPTION_LOCATION_PATH, plen, path)) && p->used_size + 2 <= p->max_size;
     }
     if (!ok) {
       printf("nopdu/");
